@@ -161,7 +161,7 @@ def run_case(case):
     text, ts_s, depth, latent = case
     cp, gen, m = lib()
     ts = ts_of(ts_s)
-    norm = re.sub("#[a-zA-Z0-9_-]+", "", m._preprocess_string(text)).strip()
+    norm = re.sub(" {2,}", " ", re.sub("#[a-zA-Z0-9_-]+", "", m._preprocess_string(text)).strip())
     v = []
     n = 0
     sig = {"latent": latent}
@@ -187,7 +187,13 @@ def run_case(case):
         for acc in ("start", "end"):
             if hasattr(type(r), acc):
                 try:
-                    getattr(r, acc)
+                    av = getattr(r, acc)
+                    # what the accessor returns must itself be well formed (and convertible when dated)
+                    if av is not None:
+                        ao = obs(av)
+                        _check_time(ao, what + " ." + acc, v, dict(sig, accessor=acc))
+                        if None not in ao[1:4]:
+                            av.dt
                 except Exception as e:
                     v.append(viol(dict(sig, kind="accessor_raises", accessor=acc, type=tn, exc=type(e).__name__), "{}: .{} raised {!r}".format(what, acc, e)))
         if o[0] == "T" and None not in o[1:4]:
